@@ -141,4 +141,30 @@ Definition decode (x : sexp) : option case :=
 Definition verdict (c : case) : N :=
   verdict_bits (mismatch c) (spec_fail_new c) (spec_fail_known c) (nontrivial c).
 
-Definition run_line : string -> string := run_with decode verdict.
+(* The same text taken through the other routes by which an envelope is unwrapped, as observed by the harness:
+   - retained: the payload returned by the decoder is unchanged after two further, unrelated decodes;
+   - doc / eval: eval.DecryptSecrets over a document and the evaluator's fn::secret, each with a recording decrypter,
+     handed the decrypter exactly the payload the decoder returned, and nothing when the decoder rejected the text
+     ("an envelope that is rejected is never handed to the decrypter"). *)
+Record wcase := { w_core : case; w_retained : bool; w_doc : bool; w_eval : bool }.
+
+Definition path_fail (w : wcase) : bool := negb (w_retained w) || negb (w_doc w) || negb (w_eval w).
+
+Definition decode_flag (x : sexp) : option bool :=
+  match x with Atom "same" | Atom "skip" => Some true | Atom "differs" => Some false | _ => None end.
+
+Definition decode_w (x : sexp) : option wcase :=
+  match x with
+  | SList [Atom "c11"; core; r; d; e] =>
+      match decode core, decode_flag r, decode_flag d, decode_flag e with
+      | Some c, Some r, Some d, Some e => Some {| w_core := c; w_retained := r; w_doc := d; w_eval := e |}
+      | _, _, _, _ => None
+      end
+  | _ => None
+  end.
+
+Definition verdict_w (w : wcase) : N :=
+  let c := w_core w in
+  verdict_bits (mismatch c) (spec_fail_new c || path_fail w) (spec_fail_known c) (nontrivial c).
+
+Definition run_line : string -> string := run_with decode_w verdict_w.
